@@ -26,6 +26,8 @@ pub struct NodeState {
 	pub fake_kernels: HashMap<Commitment, u64>,
 	/// reject posts
 	pub refuse_post: bool,
+	/// block header version reported by `get_version_info` (None = node gives no version info)
+	pub version_bhv: Option<u16>,
 }
 
 pub struct NodeInner {
@@ -118,7 +120,12 @@ impl NodeClient for DirectNode {
 	}
 
 	fn get_version_info(&mut self) -> Option<NodeVersionInfo> {
-		None
+		let bhv = self.with(|s| s.version_bhv);
+		bhv.map(|b| NodeVersionInfo {
+			node_version: "5.3.3".to_string(),
+			block_header_version: b,
+			verified: Some(true),
+		})
 	}
 
 	fn get_chain_tip(&self) -> Result<(u64, String), Error> {
